@@ -6,7 +6,7 @@ use encoding_rs::*;
 use serde_json::{json, Value};
 use std::time::Instant;
 
-pub const RULE: &str = "case = byte string given to Encoding::for_label / for_label_no_replacement: the 228 labels x every single-byte substitution, insertion and deletion, every ASCII case mask (all masks for labels up to 12 bytes, seeded random masks beyond), padding with every combination of up to 2 (selected labels: 3) leading and trailing bytes from {09 0A 0B 0C 0D 20 00 A0 85}, label + whitespace + every byte (and mirrored), inner whitespace, over-long strings, empty / whitespace-only strings, seeded random strings over the label alphabet, every Encoding::name(). Oracle = the Standard's 'get an encoding' (strip leading/trailing TAB LF FF CR SPACE, ASCII-lowercase, exact match) on the frozen label table; for_label_no_replacement == for_label with replacement mapped to None; never a panic. Non-trivial = input that is not itself one of the 228 exact spellings; distinct = distinct byte string (by construction within a family, by content hash for random strings).";
+pub const RULE: &str = "case = byte string given to Encoding::for_label / for_label_no_replacement: the 228 labels x every single-byte substitution, insertion and deletion, every ASCII case mask (all masks for labels up to 12 bytes, seeded random masks beyond), padding with every combination of up to 2 (selected labels: 3) leading and trailing bytes from {09 0A 0B 0C 0D 20 00 A0 85}, label + whitespace + every byte (and mirrored), inner whitespace, over-long strings, empty / whitespace-only strings, every string of up to 4 (thorough 5) bytes over the 40-character label alphabet, every 2- and 3-token sequence over the vocabulary cut out of the labels, ~1900 charset names of other registries (IANA cs* aliases, CPython/ICU/MySQL spellings), the label between every pair of ~50 delimiters, runs of one byte of 1..=40 and 2^k+-10 bytes before/after/around the label, two simultaneous substitutions, seeded random strings over the label alphabet, every Encoding::name(). Oracle = the Standard's 'get an encoding' (strip leading/trailing TAB LF FF CR SPACE, ASCII-lowercase, exact match) on the frozen label table; for_label_no_replacement == for_label with replacement mapped to None; never a panic. Non-trivial = input that is not itself one of the 228 exact spellings; distinct = distinct byte string (by construction within a family, by content hash for random strings).";
 
 fn model(label: &[u8]) -> Option<&'static Encoding> {
     let is_ws = |b: u8| matches!(b, 0x09 | 0x0A | 0x0C | 0x0D | 0x20);
@@ -61,6 +61,17 @@ fn one(label: &[u8], st: &mut Stats, exact: bool) -> bool {
     if !exact {
         st.nontrivial_distinct();
     }
+    if let Some(m) = check(label) {
+        st.violations.push(viol(label, m));
+        return false;
+    }
+    true
+}
+
+/// like `one`, for families whose members may coincide as strings: distinct by content hash
+fn one_h(label: &[u8], st: &mut Stats) -> bool {
+    st.evals += 1;
+    st.nontrivial_hash(fw::fnv(label));
     if let Some(m) = check(label) {
         st.violations.push(viol(label, m));
         return false;
@@ -230,6 +241,221 @@ pub fn run(ctx: &Ctx) -> i32 {
             }
         }
         st.merge(s2);
+    }
+    // names from other registries (IANA cs* aliases, CPython / ICU / MySQL spellings), each bare and
+    // with "cs" / "x-" added or removed
+    if !fw::should_stop() {
+        let foreign: Vec<&str> = include_str!("../../../data/foreign_labels.txt").lines().filter(|l| !l.starts_with('#') && !l.is_empty()).collect();
+        let r = par_run(ctx, 8, |part, st| {
+            for (i, f) in foreign.iter().enumerate() {
+                if i % 8 != part {
+                    continue;
+                }
+                let b = f.as_bytes();
+                let mut forms: Vec<Vec<u8>> = vec![b.to_vec(), [b"cs", b].concat(), [b"x-", b].concat(), [b"x-x-", b].concat(), [b" ", b, b"\n"].concat(), b.to_ascii_uppercase()];
+                if b.len() > 2 && (b.starts_with(b"cs") || b.starts_with(b"x-")) {
+                    forms.push(b[2..].to_vec());
+                }
+                for v in forms {
+                    st.class("foreign-registry-name");
+                    if !one_h(&v, st) {
+                        return;
+                    }
+                }
+            }
+        });
+        st.merge(r);
+        st.exhaustive.push(format!("{} charset names from other registries (data/foreign_labels.txt) x 6-7 forms", foreign.len()));
+    }
+    // every string over the label alphabet (a-z 0-9 - _ : .) of up to 4 (thorough: 5) bytes
+    if !fw::should_stop() {
+        const LA: &[u8] = b"abcdefghijklmnopqrstuvwxyz0123456789-_:.";
+        let maxn = if thorough { 5 } else { 4 };
+        let r = par_run(ctx, LA.len() * LA.len(), |part, st| {
+            let (a, b) = (LA[part / LA.len()], LA[part % LA.len()]);
+            if part == 0 {
+                for c in LA {
+                    one(&[*c], st, false);
+                }
+            }
+            if !one(&[a, b], st, false) {
+                return;
+            }
+            let mut sum: usize = 1;
+            for n in 3..=maxn {
+                let total = LA.len().pow((n - 2) as u32);
+                sum += total;
+                let mut v = vec![a, b];
+                v.resize(n, 0);
+                for mut x in 0..total {
+                    for i in 2..n {
+                        v[i] = LA[x % LA.len()];
+                        x /= LA.len();
+                    }
+                    if !one(&v, st, false) {
+                        return;
+                    }
+                }
+                if fw::should_stop() {
+                    return;
+                }
+            }
+            st.class_n("every-short-string-over-the-label-alphabet", sum as u64);
+        });
+        st.merge(r);
+        st.exhaustive.push(format!("every string of 1..={} bytes over the 40-character label alphabet", maxn));
+    }
+    // label vocabulary: every sequence of up to 3 tokens (letter runs with cs/x split off, digit runs,
+    // punctuation) taken from the labels themselves - "csutf8", "iso8859-1", "windows1252-8" ...
+    if !fw::should_stop() {
+        let mut vocab: Vec<Vec<u8>> = Vec::new();
+        for l in &labels {
+            let mut i = 0;
+            while i < l.len() {
+                let cls = |c: u8| if c.is_ascii_alphabetic() { 0 } else if c.is_ascii_digit() { 1 } else { 2 };
+                let mut j = i + 1;
+                while j < l.len() && cls(l[j]) == cls(l[i]) && cls(l[i]) != 2 {
+                    j += 1;
+                }
+                let t = l[i..j].to_vec();
+                if t.len() > 2 && t.starts_with(b"cs") {
+                    vocab.push(b"cs".to_vec());
+                    vocab.push(t[2..].to_vec());
+                }
+                vocab.push(t);
+                i = j;
+            }
+        }
+        vocab.sort();
+        vocab.dedup();
+        let nv = vocab.len();
+        let r = par_run(ctx, nv, |a, st| {
+            let mut v: Vec<u8> = Vec::with_capacity(64);
+            for b in 0..nv {
+                v.clear();
+                v.extend_from_slice(&vocab[a]);
+                v.extend_from_slice(&vocab[b]);
+                let l2 = v.len();
+                st.class("label-vocabulary-sequence");
+                if !one_h(&v, st) {
+                    return;
+                }
+                for c in 0..nv {
+                    v.truncate(l2);
+                    v.extend_from_slice(&vocab[c]);
+                    st.class("label-vocabulary-sequence");
+                    if !one_h(&v, st) {
+                        return;
+                    }
+                }
+                if fw::should_stop() {
+                    return;
+                }
+            }
+        });
+        st.merge(r);
+        st.exhaustive.push(format!("every sequence of 2 and 3 tokens over the {}-token vocabulary cut out of the labels", nv));
+    }
+    // wrappers: label between every pair of delimiters a header or attribute parser might leave on
+    if !fw::should_stop() {
+        const WRAP: &[&[u8]] = &[
+            b"", b"\"", b"'", b"`", b"(", b")", b"[", b"]", b"{", b"}", b"<", b">", b";", b",", b"=", b"/", b"\\", b"*", b"?", b"!", b"#", b"%", b"&", b"+", b"|", b"~", b"^", b"$", b"@", b"\x00", b"\x0B", b"\x1F", b"\x7F",
+            b"\xA0", b"\x85", b"\xC2\xA0", b"\xE2\x80\x8B", b"\xEF\xBB\xBF", b"\xE3\x80\x80", b"\xE2\x80\xA8", b"charset=", b"charset=\"", b"\";", b"\" ", b" \"", b"\r\n", b"\\n", b"%20", b"&quot;", b"\"\"",
+        ];
+        let r = par_run(ctx, labels.len(), |li, st| {
+            let l = &labels[li];
+            for pre in WRAP {
+                for post in WRAP {
+                    if pre.is_empty() && post.is_empty() {
+                        continue;
+                    }
+                    let v = [*pre, &l[..], *post].concat();
+                    st.class("delimiter-wrapped-label");
+                    if !one(&v, st, false) {
+                        return;
+                    }
+                }
+            }
+        });
+        st.merge(r);
+        st.exhaustive.push(format!("228 labels x every (prefix, suffix) pair from {} delimiters (quotes, brackets, separators, non-ASCII spaces, BOM, 'charset=')", WRAP.len()));
+    }
+    // long arguments: runs of one byte before / after / around the label, lengths 1..=40 and around
+    // every power of two up to 2^16 (a narrow counter or a scratch index that wraps)
+    if !fw::should_stop() {
+        let mut lens: Vec<usize> = (1..=40).collect();
+        for p in [64usize, 128, 256, 512, 1024, 4096, 65536] {
+            for d in 0..=20 {
+                lens.push(p - 10 + d);
+            }
+            if p == 256 || p == 65536 {
+                for d in 21..=40 {
+                    lens.push(p - 20 + d);
+                }
+            }
+        }
+        let r = par_run(ctx, labels.len(), |li, st| {
+            let l = &labels[li];
+            let bodies: &[u8] = if thorough || li % 8 == 0 { b"a-0 xA\t_\x00" } else { b"a- " };
+            for &c in bodies {
+                for &k in &lens {
+                    if k > 5000 && !(thorough || li % 32 == 0) {
+                        continue;
+                    }
+                    let run = vec![c; k];
+                    for form in 0..4 {
+                        let v = match form {
+                            0 => [&run[..], &l[..]].concat(),
+                            1 => [&l[..], &run[..]].concat(),
+                            2 => [&run[..], &l[..], &run[..]].concat(),
+                            // run, a whitespace byte, label: the run is a separate word
+                            _ => [&run[..], b" ", &l[..]].concat(),
+                        };
+                        st.class("label-with-long-run");
+                        if !one(&v, st, false) {
+                            return;
+                        }
+                    }
+                }
+                if fw::should_stop() {
+                    return;
+                }
+            }
+        });
+        st.merge(r);
+        st.exhaustive.push("228 labels x runs of one byte (label character, whitespace, NUL ...) of 1..=40 and 2^k-10..=2^k+10 (k = 6..10, 12, 16) bytes before / after / around the label".into());
+    }
+    // two simultaneous edits (substitutions over the label alphabet): thorough, and every 8th label in quick
+    if !fw::should_stop() {
+        const LA: &[u8] = b"abcdefghijklmnopqrstuvwxyz0123456789-_:. \"";
+        let r = par_run(ctx, labels.len(), |li, st| {
+            if !(thorough || li % 8 == 3) {
+                return;
+            }
+            let l = &labels[li];
+            let n = l.len();
+            let mut v = l.clone();
+            for i in 0..n {
+                for j in (i + 1)..n {
+                    for &a in LA {
+                        for &b in LA {
+                            v[i] = a;
+                            v[j] = b;
+                            st.class("two-substitutions");
+                            if !one(&v, st, false) {
+                                return;
+                            }
+                        }
+                    }
+                    v[j] = l[j];
+                }
+                v[i] = l[i];
+                if fw::should_stop() {
+                    return;
+                }
+            }
+        });
+        st.merge(r);
     }
     // random strings over the label alphabet
     if !fw::should_stop() {
